@@ -630,6 +630,21 @@ class Engine:
             def probe(tag: Any = td_tag) -> None:
                 a.teardown_ran.append(tag)
 
+            if cmd["vid"] % 5 == 0:
+                # a decorated callback: functools.wraps makes introspection report the signature of the function it wraps (which
+                # takes an argument), while the callable itself is perfectly callable without any
+                import functools
+
+                def wrapped_original(connection: Any) -> None:  # pragma: no cover - never called
+                    raise AssertionError
+
+                plain = probe
+
+                @functools.wraps(wrapped_original)
+                def probe(*args: Any, **kw: Any) -> None:  # noqa: F811
+                    plain()
+
+                self.inc("teardown_callbacks_with_a_misleading_signature")
             kwargs["teardown_callback"] = probe
         elif cmd["teardown"] == "notcallable":
             # every kind of non-callable a caller may pass by mistake (truthy, falsy, equal to True/False, containers)
@@ -876,8 +891,13 @@ class Engine:
                 await checkpoint()
             clock[0] += 1
             start = clock[0]
+            Ti = POOL[cmd["types"][i]] if "types" in cmd else T
             try:
-                r = ("ok", await ctx.get_resource(POOL[cmd["types"][i]] if "types" in cmd else T, name))
+                if cmd.get("apis") and cmd["apis"][i] == "nowait":
+                    # (a synchronous factory: some of the racing lookups go through the synchronous API)
+                    r = ("ok", ctx.get_resource_nowait(Ti, name))
+                else:
+                    r = ("ok", await ctx.get_resource(Ti, name))
             except Exception as e:
                 r = ("exc", e)
             clock[0] += 1
@@ -1220,13 +1240,14 @@ class Engine:
             t, nm = rng.choice(fk)
             f = mc.factories[(t, nm)]
             others = [tt for tt in f.types if tt != t and (tt, nm) not in mc.resources]
-            if f.is_async and rng.random() < 0.4:
+            if rng.random() < 0.4:
                 # the concurrent add_resource targets another type of the factory - or the very pair being generated
                 return {"op": "race_add", "cid": cid, "type": t, "other_type": rng.choice(others + [t]), "name": nm, "vid": self.fresh(),
                         "pre": rng.randint(0, 4), "yields": rng.randint(1, 3)}
             pre = [rng.randint(0, 3) for _ in range(rng.randint(2, 5))]
             free = [tt for tt in f.types if (tt, nm) not in mc.resources]
             return {"op": "race", "cid": cid, "type": t, "name": nm, "pre": pre,
+                    "apis": [rng.choice(["async", "async", "nowait"]) if not f.is_async else "async" for _ in pre],
                     "types": [t] + [rng.choice(free) for _ in pre[1:]],
                     "yields": rng.randint(0, 3), "factory_async": f.is_async, "fid": f.fid,
                     "fail_first": f.is_async and rng.random() < 0.3}
